@@ -11,6 +11,9 @@ Decided structurally (for all histories of runs at once):
         calls no loader method that executes module code (exec_module, load_module, exec):
         otherwise modules imported *by* the hooked module are cached under the instrumented
         tag without being instrumented.
+  C18.5 a hand-written replacement of importlib._bootstrap_external.cache_from_source (instead
+        of unittest.mock.patch) must restore the saved original on every exit, including the
+        exceptional exit of a `yield` in a generator-based context manager.
   C18.4 the loader overrides nothing that bypasses importlib's source-mtime/size validation.
 Not decided: importlib's own cache validation (trusted base).
 """
@@ -32,6 +35,7 @@ ALLOWED_OVERRIDES = {"__init__", "source_to_code", "exec_module", "get_code"}
 def run(ctx: RuleContext):
     ctx.sub(check_tag, ctx)
     ctx.sub(check_hash, ctx)
+    ctx.sub(check_manual_patches, ctx)
     ctx.sub(check_patch_extent, ctx)
     ctx.sub(check_overrides, ctx)
 
@@ -97,6 +101,26 @@ def check_tag(ctx):
                     ctx.bad("C18.1", meth, c, f"the hash bound into the cache function is `{got}`, not the loader's own checker's hash")
                 else:
                     ctx.ok("C18.1", meth.qualname, f"hash bound from the loader's own checker: {got}")
+    # the same binding made inside a hand-written patch helper: the hash is a parameter of the
+    # helper and must be the loader's own checker's hash at every call site
+    for q, hf in sorted(manual_patchers(ctx).items()):
+        for c in m.calls_in(hf):
+            if norm(c.func) in ("ft.partial", "functools.partial", "partial") and c.args and norm(c.args[0]) == "_optimized_cache_from_source":
+                harg = c.args[1] if len(c.args) > 1 else None
+                if isinstance(harg, ast.Name) and harg.id in hf.params:
+                    idx = hf.params.index(harg.id)
+                    for name, meth in ld.methods.items():
+                        for c2 in m.calls_in(meth):
+                            t2 = m.resolve_call(meth, c2)
+                            if t2.kind == "func" and t2.target is hf:
+                                n += 1
+                                got = norm(c2.args[idx]) if len(c2.args) > idx else None
+                                if got not in (f"{meth.params[0]}._typechecker.get_hash()", f"{meth.params[0]}._typechecker.hash"):
+                                    ctx.bad("C18.1", meth, c2, f"the hash handed to the patch helper is `{got}`, not the loader's own checker's hash")
+                                else:
+                                    ctx.ok("C18.1", meth.qualname, f"hash bound from the loader's own checker via {hf.name}: {got}")
+                else:
+                    ctx.bad("C18.1", hf, c, f"the hash bound into the cache function by the patch helper is `{norm(harg)}`")
     ctx.counters["partial_binding_sites"] = n
     ctx.floor("C18.1", "partial_binding_sites", 1)
     tc = m.cls("_import_hook.Typechecker")
@@ -145,20 +169,82 @@ def check_hash(ctx):
     ctx.floor("C18.2", "hash_assignments", 2)
 
 
+def _is_bootstrap_attr(e) -> bool:
+    return isinstance(e, ast.Attribute) and norm(e.value).endswith("_bootstrap_external") and e.attr == "cache_from_source"
+
+
+def manual_patchers(ctx) -> dict:
+    """functions of _import_hook that assign importlib._bootstrap_external.cache_from_source"""
+    m = ctx.model
+    out = {}
+    for f in m.all_functions(include_typeguard=False):
+        if f.module.short != "_import_hook":
+            continue
+        if any(isinstance(n, ast.Assign) and any(_is_bootstrap_attr(t) for t in n.targets) for n in walk_scope(f.node)):
+            out[f.qualname] = f
+    return out
+
+
+def check_manual_patches(ctx):
+    from ..cfg import Flow
+    from ..typestate import NoReturn
+
+    m = ctx.model
+    for q, f in sorted(manual_patchers(ctx).items()):
+        ctx.saw(f)
+        g = NoReturn(m).cfg(f)
+        NORMAL = ("n", "t", "f", "loop", "done", "ret", "brk", "cont", "caught", "fall")
+
+        def transfer(node, st, kind, succ):
+            state, saved = st
+            a = node.ast
+            if node.kind == "stmt" and isinstance(a, ast.Assign):
+                if len(a.targets) == 1 and isinstance(a.targets[0], ast.Name) and _is_bootstrap_attr(a.value) and kind in NORMAL and state == "orig":
+                    saved = saved | {a.targets[0].id}
+                if any(_is_bootstrap_attr(t) for t in a.targets):
+                    # a release store counts on its exceptional edge too (post-state)
+                    if isinstance(a.value, ast.Name) and a.value.id in saved:
+                        state = "orig"
+                    elif kind in NORMAL:
+                        state = "patched"
+            return ((state, saved),)
+
+        fl = Flow(g, ("orig", frozenset()), transfer)
+        bad = False
+        for ex, label in ((g.exit, "returns"), (g.exit_e, "is left by an Exception"), (g.exit_b, "is left by a BaseException")):
+            for stt in fl.states_at(ex):
+                if stt[0] == "patched":
+                    bad = True
+                    ctx.bad("C18.5", f, f.node, f"importlib's cache_from_source is replaced by hand and `{f.name}` {label} with the replacement still installed (e.g. the "
+                            "hooked module raises at import): every later import in the process, hooked or not, reads and writes the jaxtyping-tagged cache",
+                            path=fl.witness(ex, stt), construct=f"{f.name}: cache_from_source not restored when it {label}")
+                    break
+        if not bad:
+            ctx.ok("C18.5", q, "hand-written patch restores the saved original on every exit")
+
+
 def check_patch_extent(ctx):
     m = ctx.model
     ld = m.cls("_import_hook._JaxtypingLoader")
     n = 0
+    helpers = set(manual_patchers(ctx))
     for name, meth in ld.methods.items():
         for w in [x for x in walk_scope(meth.node) if isinstance(x, ast.With)]:
             for item in w.items:
                 ce = item.context_expr
-                if not (isinstance(ce, ast.Call) and m.resolve_call(meth, ce).kind == "ext" and m.resolve_call(meth, ce).target.endswith("mock.patch")):
+                if not isinstance(ce, ast.Call):
+                    continue
+                rt = m.resolve_call(meth, ce)
+                is_mock = rt.kind == "ext" and rt.target.endswith("mock.patch")
+                is_helper = rt.kind == "func" and rt.target.qualname in helpers
+                if not (is_mock or is_helper):
                     continue
                 n += 1
                 ctx.saw(meth)
                 tgt = ce.args[0] if ce.args else None
-                if not (isinstance(tgt, ast.Constant) and tgt.value == "importlib._bootstrap_external.cache_from_source"):
+                if is_helper:
+                    ctx.ok("C18.3", meth.qualname, f"patch applied through the helper {rt.target.name} (pairing judged by C18.5)")
+                elif not (isinstance(tgt, ast.Constant) and tgt.value == "importlib._bootstrap_external.cache_from_source"):
                     ctx.bad("C18.3", meth, ce, f"the patch target is `{norm(tgt)}`, not importlib._bootstrap_external.cache_from_source: the tag is not applied where "
                             "importlib computes the cache path")
                 else:
@@ -180,7 +266,7 @@ def check_patch_extent(ctx):
                     ctx.ok("C18.3", meth.qualname, f"patched region = `{short(io[0][1], 50)}` only: cache lookup/validation/write of this module, no module code is executed")
                 # unknown calls in the region
                 for nm, c in names:
-                    if nm not in EXECUTES_MODULE_CODE | CACHE_IO | {"super", "partial", "patch", "get_hash", "source_to_code", "get_data", "set_data", "cache_from_source"}:
+                    if nm not in EXECUTES_MODULE_CODE | CACHE_IO | {"super", "partial", "patch", "get_hash", "source_to_code", "get_data", "set_data", "cache_from_source"} | {h.split(".")[-1] for h in helpers}:
                         ctx.bad("C18.3", meth, c, f"`{short(c, 50)}` inside the patched region is not known to be free of module execution")
     if n == 0:
         f0 = ld.methods.get("exec_module") or ld.methods.get("get_code") or list(ld.methods.values())[0]
